@@ -152,6 +152,33 @@ func c04Run(c *core.Ctx, r *core.Result, ch c04Chain) {
 		return
 	}
 	final := states[b.Chain.Tip()]
+	// the user's view of supply: get-pegnet-issuance must equal the per-asset sum of all balances
+	if final != nil && d != nil {
+		if raw, aerr := newAPI(d).call("get-pegnet-issuance", nil); aerr == nil {
+			var res struct {
+				Issuance map[string]uint64 `json:"issuance"`
+			}
+			json.Unmarshal(raw, &res)
+			sup := final.Supply()
+			bad := ""
+			for asset, x := range sup {
+				if !x.IsUint64() || res.Issuance[asset] != x.Uint64() {
+					bad = fmt.Sprintf("%s: issuance %d, sum of balances %s", asset, res.Issuance[asset], x)
+				}
+			}
+			for asset, x := range res.Issuance {
+				if x != 0 && sup[asset] == nil {
+					bad = fmt.Sprintf("%s: issuance %d, no balances", asset, x)
+				}
+			}
+			r.Eval()
+			if bad != "" {
+				r.Violate(core.Violation{Key: ch.name + "@issuance", Signature: "C04:get-pegnet-issuance-differs-from-sum-of-balances", Desc: "chain " + ch.name + ": " + bad})
+			}
+		} else if len(final.Balances) > 0 {
+			r.Violate(core.Violation{Key: ch.name + "@issuance", Signature: "C04:get-pegnet-issuance-fails", Desc: "chain " + ch.name + ": " + aerr.Error()})
+		}
+	}
 	// index entries by hash
 	type entryAt struct {
 		e fake.Entry
